@@ -117,6 +117,8 @@ def run(prog, rep):
                             'a field containing %r is written without enclosing quotes (separator %r): RFC 4180 TEXTDATA excludes it, an '
                             'independent parser splits or alters the field' % (ch, sep), func=f.id)
 
+    check_unescape(prog, rep)
+
     # ---------------------------------------------------------------- R9.3
     for cls, meth, operands in (('CCsvStringReader', 'ParseNextRow', ({'mHeaders', 'mRowValuesMeta'}, {'mPrevValuesCount', 'mRowValuesMeta'})),
                                 ('CCsvStreamReader', 'ParseNextRow', ({'mHeaders', 'mRowValuesMeta'}, {'mPrevValuesCount', 'mRowValuesMeta'})),
@@ -243,3 +245,195 @@ def quoting_outcome(prog, f, ch, sep):
             if puts[:3] != [0x22, 0x22, 0x22]:
                 doubled = False
     return (seen and quoted_all), doubled
+
+
+# ---------------------------------------------------------------------------------------- R9.5 UnescapeValue acceptance table
+from bsv.dtab import Interp, Model
+from bsv.linear import entails, eq, le, lt, unsat
+from bsv.linear import Lin as _Lin
+
+
+class UnescapeModel(Model):
+    """quoted cell of symbolic length L starting at B: first/last characters are opaque symbols, lengths are linear"""
+
+    def __init__(self, facts):
+        self.base_facts = facts
+
+    def cons(self, it):
+        out = list(self.base_facts)
+        for lab, d in it.path.guards:
+            if isinstance(lab, tuple) and lab[0] == 'LIN':
+                op, a, b = lab[1], lab[2], lab[3]
+                if not d:
+                    op = {'<': '>=', '<=': '>', '>': '<=', '>=': '<', '==': '!=', '!=': '=='}[op]
+                r = {'<': lambda: [lt(a, b)], '<=': lambda: [le(a, b)], '>': lambda: [lt(b, a)], '>=': lambda: [le(b, a)], '==': lambda: eq(a, b), '!=': lambda: None}[op]()
+                if r:
+                    out.extend(r)
+        return out
+
+    def char_at(self, it, p):
+        c = self.cons(it)
+        B, L = _Lin.sym('B'), _Lin.sym('L')
+        if entails(c, eq(p, B)):
+            return Sym('FIRST')
+        if entails(c, eq(p, B + L - 1)):
+            return Sym('LAST')
+        return TOP
+
+    def need(self, it, fr, n, what, cons_list):
+        """memory-safety obligation (used by C02 R2.7): the constraint must follow from the guards passed so far"""
+        c = self.cons(it)
+        ok = all(entails(c, [x]) for x in cons_list)
+        it.act('NEED', what, fr.f.loc(n), ok)
+
+    def in_cell(self, it, fr, n, p, what):
+        B, L = _Lin.sym('B'), _Lin.sym('L')
+        self.need(it, fr, n, what, [le(B, p), le(p, B + L - 1)])
+
+    def deref(self, it, fr, n, v):
+        p = _Lin.of(v)
+        if p is None:
+            return TOP
+        self.in_cell(it, fr, n, p, 'dereferenced pointer lies inside the cell')
+        return self.char_at(it, p)
+
+    def compare(self, it, fr, n, op, a, b):
+        for x, y in ((a, b), (b, a)):
+            if isinstance(x, Sym) and x.tag in ('FIRST', 'LAST') and y == 0x22 and op in ('==', '!='):
+                lab = x.tag + 'Q'
+                prev = [d for l, d in it.path.guards if l == lab]
+                d = prev[0] if prev else it.choose(lab)
+                return (1 if d else 0) if op == '==' else (0 if d else 1)
+        la, lb = _Lin.of(a), _Lin.of(b)
+        if la is None or lb is None:
+            return Sym(('GUARD', 'OPAQUE@%s' % fr.f.loc(n)))
+        c = self.cons(it)
+        t = {'<': lambda: [lt(la, lb)], '<=': lambda: [le(la, lb)], '>': lambda: [lt(lb, la)], '>=': lambda: [le(lb, la)], '==': lambda: eq(la, lb), '!=': lambda: None}[op]()
+        f = {'<': lambda: [le(lb, la)], '<=': lambda: [lt(lb, la)], '>': lambda: [le(la, lb)], '>=': lambda: [lt(la, lb)], '==': lambda: None, '!=': lambda: eq(la, lb)}[op]()
+        if op == '!=' and 'char *' in fr.f.type(strip(n['c'][0])) and not entails(c, f):
+            # pointer loop "p != end; ++p": terminates inside the cell only when it starts at or before its end
+            self.need(it, fr, n, 'pointer loop with != termination starts at or before its end', [le(la, lb)])
+        if t is not None and entails(c, t):
+            return 1
+        if f is not None and entails(c, f):
+            return 0
+        if t is None and unsat(c + f):
+            return 1
+        if f is None and unsat(c + t):
+            return 0
+        return Sym(('GUARD', ('LIN', op, la, lb)))
+
+    def arith(self, it, fr, n, op, a, b):
+        la, lb = _Lin.of(a), _Lin.of(b)
+        if la is None or lb is None:
+            return TOP
+        if op == '+':
+            return la + lb
+        if op == '-':
+            if 'unsigned' in fr.f.type(n):
+                self.need(it, fr, n, 'unsigned subtraction does not wrap', [le(lb, la)])
+            return la - lb
+        return TOP
+
+    def construct(self, it, fr, n, depth):
+        vals = [it.ev(fr, a, depth) for a in n.get('c', ())]
+        if 'basic_string_view' in fr.f.type(n):
+            return Sym('VIEW')
+        return vals[0] if len(vals) == 1 else TOP
+
+    def primitive(self, it, fr, n, callee, depth):
+        q = strip_targs(callee['q'])
+        name = callee['n']
+        obj, args = it.call_args(fr, n)
+        if q.startswith('std::basic_string_view'):
+            ov = it.ev(fr, obj, depth) if obj is not None else TOP
+            if isinstance(ov, Sym) and ov.tag == 'VALUE':
+                if name in ('size', 'length'):
+                    return _Lin.sym('L')
+                if name == 'empty':
+                    return self.compare(it, fr, n, '==', _Lin.sym('L'), 0)
+                if name in ('front', 'back'):
+                    self.need(it, fr, n, '%s() of a non-empty view' % name, [le(1, _Lin.sym('L'))])
+                    return Sym('FIRST' if name == 'front' else 'LAST')
+                if name == 'operator[]':
+                    i = _Lin.of(it.ev(fr, args[0], depth))
+                    if i is None:
+                        return TOP
+                    self.in_cell(it, fr, n, _Lin.sym('B') + i, 'index lies inside the cell')
+                    return self.char_at(it, _Lin.sym('B') + i)
+                if name == 'data':
+                    return _Lin.sym('B')
+            return TOP
+        if not callee.get('repo') or name in ('ToString',) or 'Convert' in q:
+            for a in args:
+                it.ev(fr, a, depth)
+            return TOP
+        return NotImplemented
+
+
+class UnescapeInterp(Interp):
+    def cast_other(self, v, t):
+        return v
+
+    def coerce(self, v, t):
+        if isinstance(v, _Lin):
+            return v
+        return Interp.coerce(self, v, t)
+
+
+def unescape_outcomes(prog, f, facts, needs=None):
+    model = UnescapeModel(facts)
+    it = UnescapeInterp(prog, model, max_depth=2, max_paths=300)
+
+    def init(it_, fr):
+        for p in f.params:
+            if p['n'] == 'beginIt':
+                fr.env[p['d']] = _Lin.sym('B')
+            elif p['n'] == 'endIt':
+                fr.env[p['d']] = _Lin.sym('B') + _Lin.sym('L')
+            elif p['n'] == 'value':
+                fr.env[p['d']] = Sym('VALUE')
+            else:
+                fr.env[p['d']] = TOP
+    res = {}
+    for p in it.run(f, init):
+        if needs is not None:
+            needs.extend(a for a in p.actions if a[0] == 'NEED')
+        g = dict((l, d) for l, d in p.guards if l in ('FIRSTQ', 'LASTQ'))
+        key = (g.get('FIRSTQ'), g.get('LASTQ'))
+        res.setdefault(key, set()).add('throw' if p.outcome[0] == 'THROW' else 'accept')
+    return res
+
+
+def check_unescape(prog, rep):
+    rep.rule('R9.5', 'UnescapeValue (both readers): a cell is accepted iff it has at least 2 characters and starts and ends with a double quote '
+                     '(symbolic length cells 0, 1, 2, >=3 x first/last character is a quote or not)', floor=8)
+    L = _Lin.sym('L')
+    cells = [('L=0', eq(L, 0)), ('L=1', eq(L, 1)), ('L=2', eq(L, 2)), ('L>=3', [le(3, L)])]
+    for cls in ('CCsvStringReader', 'CCsvStreamReader'):
+        fs = [g for g in prog.funcs.values() if g.q == NS + cls + '::UnescapeValue']
+        if len(fs) != 1:
+            raise AnalysisBroken('anchor vanished: %s::UnescapeValue' % cls)
+        f = fs[0]
+        rep.touch(f)
+        for nm, facts in cells:
+            res = unescape_outcomes(prog, f, facts + [le(0, L)])
+            problems = []
+            long_enough = nm in ('L=2', 'L>=3')
+            for (fq, lq), outs in res.items():
+                if fq is False or lq is False:
+                    if outs != {'throw'}:
+                        problems.append('a cell without %s quote is accepted' % ('opening' if fq is False else 'closing'))
+                elif long_enough:
+                    if 'throw' in outs:
+                        problems.append('a properly quoted cell of length %s is rejected' % nm[2:])
+                elif not long_enough:
+                    if 'accept' in outs:
+                        problems.append('a cell shorter than 2 characters is accepted as quoted')
+            site = '%s::UnescapeValue|%s' % (cls, nm)
+            if problems:
+                for pr in sorted(set(problems)):
+                    rep.finding('R9.5', '%s::UnescapeValue|%s' % (cls, pr), f.loc(), '%s::UnescapeValue, cell length %s: %s (RFC 4180: "" is a valid, empty, quoted field)'
+                                % (cls, nm[2:], pr), func=f.id)
+            else:
+                rep.ok('R9.5', site, sample={'reader': cls, 'cell_length': nm, 'outcomes': {str(k): sorted(v) for k, v in res.items()}})
